@@ -224,6 +224,9 @@ def run_step(w: World, op: dict, *, probes=None, index_every=True) -> StepResult
     for v in list(viol):
         if v.check == "data_id" and v.prop != "C02":
             viol.append(Violation("C02", "data_id-rule", v.detail, v.trigger))
+        # where an inserted copy lands (before=...) is C04's "insert at a position" too
+        if v.prop == "C07" and v.check in ("shape", "data") and op["k"] == "add":
+            viol.append(Violation("C04", "insert-position", v.detail, v.trigger))
     # caller-owned dicts handed to nutree must stay untouched (no aliasing)
     for name, (live, pristine) in w.shared_dicts.items():
         if live != pristine:
